@@ -32,16 +32,35 @@ pub struct C1(pub u32);
 pub struct C2(pub u32);
 #[derive(Default, Clone, Copy)]
 pub struct C3(pub u32);
+/// zero-sized: a marker component in a `NullStorage` (its readers and writers must be staged like any other)
 #[derive(Default, Clone, Copy)]
-pub struct C4(pub u32);
+pub struct C4;
 #[derive(Default, Clone, Copy)]
 pub struct C5(pub u32);
 impl Component for C0 { type Storage = VecStorage<Self>; }
 impl Component for C1 { type Storage = DenseVecStorage<Self>; }
 impl Component for C2 { type Storage = HashMapStorage<Self>; }
 impl Component for C3 { type Storage = DefaultVecStorage<Self>; }
-impl Component for C4 { type Storage = VecStorage<Self>; }
-impl Component for C5 { type Storage = DenseVecStorage<Self>; }
+impl Component for C4 { type Storage = NullStorage<Self>; }
+impl Component for C5 { type Storage = specs::storage::BTreeStorage<Self>; }
+
+trait Val {
+    fn val(&self) -> u64;
+    fn bump(&mut self);
+}
+macro_rules! val_u32 {
+    ($($t:ident),*) => {$(
+        impl Val for $t {
+            fn val(&self) -> u64 { self.0 as u64 }
+            fn bump(&mut self) { self.0 = self.0.wrapping_add(1); }
+        }
+    )*};
+}
+val_u32!(C0, C1, C2, C3, C5);
+impl Val for C4 {
+    fn val(&self) -> u64 { 1 }
+    fn bump(&mut self) {}
+}
 
 const NCOMP: usize = 6;
 
@@ -173,7 +192,7 @@ macro_rules! touch_read {
     ($s:expr) => {{
         let mut acc = 0u64;
         for c in ($s).join() {
-            acc = acc.wrapping_add(c.0 as u64);
+            acc = acc.wrapping_add(c.val());
         }
         acc
     }};
@@ -182,8 +201,8 @@ macro_rules! touch_write {
     ($s:expr) => {{
         let mut acc = 0u64;
         for c in ($s).join() {
-            c.0 = c.0.wrapping_add(1);
-            acc = acc.wrapping_add(c.0 as u64);
+            c.bump();
+            acc = acc.wrapping_add(c.val());
         }
         acc
     }};
@@ -433,7 +452,7 @@ fn populate(world: &mut World) {
         if k % 3 == 0 { b = b.with(C1(k)); }
         if k % 4 == 1 { b = b.with(C2(k)); }
         if k % 5 != 0 { b = b.with(C3(k)); }
-        if k % 2 == 1 { b = b.with(C4(k)); }
+        if k % 2 == 1 { b = b.with(C4); }
         if k % 7 < 3 { b = b.with(C5(k)); }
         b.build();
     }
